@@ -417,6 +417,7 @@ fn serve(dir: &Path) -> i32 {
 	0
 }
 
+
 /// names + sizes + mtimes of everything in the directory except `lock`; content hash of small files
 fn light_snapshot(dir: &Path) -> BTreeMap<String, (u64, u128, u64)> {
 	let mut m = BTreeMap::new();
